@@ -3,7 +3,8 @@
    (Checks/SrvWakeSpecTest.v: verdict 0 on every case = neither statement is false there) and the
    monitor runs on the real code's wake-driven traces on every run (Checks/C02server.v).
 
-   Where to start.  settle (ServerWake.v) iterates `one round = poll_requests, then execute_poll of
+   Proof plan as it was handed to the provers (carried out in ServerWakeSettles.v and
+   ServerWakeMon0-4.v).  settle (ServerWake.v) iterates `one round = poll_requests, then execute_poll of
    every live handler` until the digest (queue lengths, handler phases, transport digest) and the
    event list stop changing.
    - termination: a measure that strictly decreases in every non-quiet round, e.g. lexicographic
